@@ -197,8 +197,9 @@ def _split_top(s):
     return out
 
 
-def shapes_for(cls, max_variants=None):
-    """Base (max) shape, min shape, and one-at-a-time variations."""
+def shapes_for(cls, tier='quick'):
+    """Base (max) shape, min shape, and one-at-a-time variations; the thorough tier adds all pairs of variations
+    (two dimensions varied together) and, around the min shape, one-at-a-time variations towards the max."""
     base = ShapeBuilder({}, 'max')
     root = base.node(cls, 'node')
     out = [('max', root, base)]
@@ -206,14 +207,33 @@ def shapes_for(cls, max_variants=None):
     out.append(('min', mn.node(cls, 'node'), mn))
     seen = set()
     work = list(base.dims.items())
+    singles = []
     for key, values in work:
         for v in values[1:]:
             if (key, v) in seen:
                 continue
             seen.add((key, v))
+            singles.append((key, v))
             b = ShapeBuilder({key: v}, 'max')
             r = b.node(cls, 'node')
             out.append(('%s=%s' % ('/'.join(str(k) for k in key), v), r, b))
+    if tier == 'thorough':
+        import itertools
+        n = 0
+        for (k1, v1), (k2, v2) in itertools.combinations(singles, 2):
+            if k1 == k2:
+                continue
+            n += 1
+            if n > 400:
+                break
+            b = ShapeBuilder({k1: v1, k2: v2}, 'max')
+            r = b.node(cls, 'node')
+            out.append(('%s=%s & %s=%s' % ('/'.join(str(k) for k in k1), v1, '/'.join(str(k) for k in k2), v2), r, b))
+        for key, values in list(mn.dims.items()):
+            for v in values[:-1]:
+                b = ShapeBuilder({key: v}, 'min')
+                r = b.node(cls, 'node')
+                out.append(('min & %s=%s' % ('/'.join(str(k) for k in key), v), r, b))
     return out
 
 
@@ -574,6 +594,6 @@ def all_summaries(repo, tier='quick'):
         for cls in G.STMTS + G.EXPRS:
             if cls in G.OUT_OF_DOMAIN_NODES:
                 continue
-            out[cls] = [ex.summarise(cls, v, root, b) for v, root, b in shapes_for(cls)]
+            out[cls] = [ex.summarise(cls, v, root, b) for v, root, b in shapes_for(cls, getattr(repo, 'tier', tier))]
         return out
     return repo.memo('e1-summaries', build)
